@@ -114,12 +114,14 @@ def norm_log(cfg, log):
             if len(parts) == 1: continue                               # rmdir(root) = ENOTEMPTY, removedirs() of os.renames
             d = name(parts[1])
             if len(parts) == 2:
-                if kind == 'rename': c = ['rename', d, name(e[2].split(os.sep)[1])]
+                if kind == 'rename': c = ['rename', d, '/'.join(name(x) for x in e[2].split(os.sep)[1:])]
                 else: c = [kind, d]                                     # mkdir / rmdir
             else:
                 which = 'In' if parts[2].startswith(('input', '__args__')) else 'Out'
-                if parts[2] == '__pycache__' or len(parts) > 3: continue
-                c = [dict(creat='creat', write='write', unlink='unlink')[kind] + which, d]
+                if parts[2] == '__pycache__': continue
+                if len(parts) > 3 or kind not in ('creat', 'write', 'unlink'):
+                    c = [kind, d + '/' + '/'.join(name(x) for x in parts[2:])]      # a shape the protocol model does not have: shows up as a program divergence
+                else: c = [dict(creat='creat', write='write', unlink='unlink')[kind] + which, d]
         else:
             if path == '.': continue
             if kind == 'rename': c = ['rename', name(path)]
